@@ -920,7 +920,17 @@ func (env *Zlisp) FindObject(name string) (Sexp, bool) {
 func (env *Zlisp) Apply(fun *SexpFunction, args []Sexp) (Sexp, error) {
 	//VPrintf("\n\n debug Apply not working on user funcs: fun = '%#v'   and args = '%#v'\n\n", fun, args)
 	if fun.user {
-		return fun.userfun(env, fun.name, args)
+		// a function written in Go may re-enter the VM (eval, map,
+		// apply, sort with a callback ...). When it fails in there it
+		// leaves frames and operands behind; inside the VM the call
+		// instruction cleans up, a host calling Apply directly gets
+		// the same here (its caller may well handle the error and go on).
+		callState := env.captureControlState()
+		res, err := fun.userfun(env, fun.name, args)
+		if err != nil {
+			env.restoreControlState(callState)
+		}
+		return res, err
 	}
 
 	callState := env.captureControlState()
